@@ -1066,3 +1066,27 @@ Section HostChainIter.
     - exact H2.
   Qed.
 End HostChainIter.
+
+(* ---- tcp-services ConfigMap ---- *)
+Theorem tcp_owner_order_indep valid visit visit' port :
+  Permutation visit visit' -> NoDup (map fst visit) ->
+  tcp_owner valid visit port = tcp_owner valid visit' port.
+Proof.
+  intros Hp Hn. unfold tcp_owner.
+  rewrite (isort_perm alias_ltb fst) with (l2 := visit'); [reflexivity| | | |exact Hp|exact Hn].
+  - intros a. apply str_ltb_irrefl.
+  - intros a b c. apply str_ltb_trans.
+  - intros a b Hne H. destruct (str_ltb (fst b) (fst a)) eqn:E; [exact E|].
+    exfalso. apply Hne. apply str_ltb_trich; assumption.
+Qed.
+
+Theorem tcp_name_old_refuted :
+  exists valid visit visit' port, Permutation visit visit' /\ NoDup (map fst visit) /\
+    tcp_name_old valid visit port <> tcp_name_old valid visit' port.
+Proof.
+  exists (fun _ => true), [("9000", "ns1/svc1:80"); ("09000", "ns1/svc2:80")],
+         [("09000", "ns1/svc2:80"); ("9000", "ns1/svc1:80")], 9000%Z.
+  split; [apply perm_swap|]. split.
+  - cbn. repeat constructor; cbn; intuition discriminate.
+  - vm_compute. discriminate.
+Qed.
